@@ -182,7 +182,8 @@ fn run_merged(bc: Bytecode, history: &[String], modules: HashMap<Vec<String>, St
         let program = sim.env.get_program().clone();
         match sim.env.poll_request(req) {
             Ok(Some(RequestResult::Result(Ok((v, heap)), _))) => {
-                return json!({"t": "value", "v": pv(&program, &heap, &v)});
+                return json!({"t": "value", "v": pv(&program, &heap, &v),
+                    "formatted": sim.env.format_value(&v, &heap)});
             }
             Ok(Some(RequestResult::Result(Err(e), _))) => return json!({"t": "error", "e": err_class(&e)}),
             Ok(Some(_)) => return json!({"t": "crash"}),
